@@ -383,7 +383,7 @@ static void chain_gen(Ctx& ctx) {
             }
     // (2) random: everything free, h length anywhere in 2..40*max(L,M)
     const auto& rs = all_ratios();
-    ctx.rc("random", ctx.by_tier(2400000, 30000000), [&]() {
+    ctx.rc("random", ctx.by_tier(1600000, 20000000), [&]() {
         const Ratio q = rs[size_t(pick(0, int(rs.size()) - 1))];
         std::vector<int> ok = {C_RATE, C_RESAMPLER};
         if (q.M == 1) ok.push_back(C_INTERP);
